@@ -2,6 +2,7 @@
 windows around 2^8 / 2^16) + trace validation of real u8/u16/u32 builds of grammars generated to
 sit exactly in those windows."""
 import json
+import re
 import os
 
 from . import core
@@ -99,6 +100,24 @@ def main(pid, tier, replay=None):
     elif outs["Inv"] == "noerror" and outs["InvOld"] == "noerror":
         raise core.ToolError("vacuity: Apalache did not refute the pre-fix guards")
     elif outs["Inv"] != "noerror":
+        res.cov["inconclusive"] += 1
+    # (1c) ... and as a theorem, by the TLA+ proof system (WidthProof.tla; SMT / Zenon / Isabelle back ends)
+    td = os.path.join(res.wd, "tlaps")
+    shutil.rmtree(td, ignore_errors=True)
+    os.makedirs(td)
+    shutil.copy(os.path.join(core.SPEC, "WidthProof.tla"), td)
+    try:
+        p = subprocess.run(["timeout", "600", "tlapm", "--threads", "4", "WidthProof.tla"], cwd=td, stdout=subprocess.PIPE, stderr=subprocess.STDOUT, text=True)
+        m = re.search(r"All (\d+) obligations proved", p.stdout)
+        proof = dict(outcome="proved" if m else ("failed" if "obligations failed" in p.stdout else "unknown"), obligations=int(m.group(1)) if m else 0)
+    except OSError:
+        proof = dict(outcome="unavailable", obligations=0)
+    shutil.rmtree(td, ignore_errors=True)
+    res.notes["tlaps_theorem"] = dict(proof, what="THEOREM WidthGuards: for all natural counts and widths 8/16/32, not refused => nothing stored wraps")
+    if proof["outcome"] == "failed":
+        # the guards as specified no longer imply the property: the specification says so itself
+        res.violation("WidthProof.tla: THEOREM WidthGuards has unproved obligations (the specified guards do not imply no-wrap)", dict(kind="tlaps", out=p.stdout[-1500:]))
+    elif proof["outcome"] != "proved":
         res.cov["inconclusive"] += 1
     # (2) real builds
     insts = []
